@@ -5,7 +5,7 @@ StaticResource, PrefixedSubAppResource, MatchedSubAppResource), aiohttp.web_app 
 add_domain), aiohttp.web_middlewares.normalize_path_middleware.
 Model: lean/AioModel/C14.lean; theorems: lean/AioProps/C14.lean.
 """
-import asyncio, itertools, os, re, warnings
+import asyncio, itertools, os, posixpath, re, warnings
 from .common.codec import st
 
 PROPERTY = "C14"
@@ -26,6 +26,8 @@ THEOREMS = [
     "Aio.C14.urlfor_resolve_inverse_partial",
     "Aio.C14.glob_suffix",
     "Aio.C14.mask_match_ends_with_literal",
+    "Aio.C14.frozen_refuses_mount",
+    "Aio.C14.frozen_add_route_keeps_index",
     "Aio.C14.redirect_same_site",
     "Aio.C14.redirect_candidates_rooted",
     "Aio.C14.f12_quoted_literal_never_matches",
@@ -38,7 +40,7 @@ RULE = ("route-table programs (add_route / add_static / add_subapp / add_domain,
         "slashes, swapped and percent-encoded segments, %2F %25 %252F %0A, non-ASCII digits, dot segments) plus random "
         "paths over the same alphabet; methods GET POST PUT HEAD DELETE OPTIONS; Host headers aimed at every Domain/MaskDomain rule of the table (an instance of the rule and its near misses: foreign or glued suffix, port, trailing dot, upper case, empty label, foreign prefix, line feed), each (rule, host) pair also judged directly; url_for on "
         "every dynamic template with values containing quoting-sensitive characters; normalize_path_middleware on "
-        "slash-heavy and //host-like paths for all flag combinations. A case is one (table, request) pair; distinct by content.")
+        "slash-heavy and //host-like paths for all flag combinations. Route-table HISTORIES: refused operations are interleaved (add_subapp / add_domain of the very sub-application that is mounted next, on a frozen application or with a bad prefix / domain; add_route / add_static / add_subapp / add_domain after the application was frozen) and every involved object is compared before/after the refusal; requests with every method on paths with dot segments and encoded dots (%2E) around each static and sub-application prefix, judged 404-vs-405 by the documented rule. A case is one (table, request) pair; distinct by content.")
 TRUSTED_BASE = [
     "yarl is not modelled: _requote_path(literal), _quote_path(value), URL.path_safe(request path) and str(URL(candidate)) are oracle columns taken from the real library per case",
     "os.path.normpath (StaticResource.resolve) is an oracle column",
@@ -150,10 +152,30 @@ def gen_ops(rng, hg, depth, maxops=5):
         elif r < 0.80:
             ops.append(("S", rng.choice(PREFIXES + ["/s", "/s/", "/"]), hg.next(2)))
         elif r < 0.93:
-            ops.append(("SUB", rng.choice(PREFIXES), gen_ops(rng, hg, depth - 1, 3)))
+            ops.append(("SUB", rng.choice(PREFIXES), gen_ops(rng, hg, depth - 1, 3), gen_attempts(rng)))
         else:
-            ops.append(("DOM", rng.choice(DOMAINS), gen_ops(rng, hg, depth - 1, 3)))
+            ops.append(("DOM", rng.choice(DOMAINS), gen_ops(rng, hg, depth - 1, 3), gen_attempts(rng)))
     return ops
+
+
+BAD_PREFIXES = ["", "/", "//", "nop", "p/q"]
+BAD_DOMAINS = ["", "http://a.example", "bad domain", "-a.example", "a..example"]
+
+
+def gen_attempts(rng):
+    """rejected mounts that precede the real one: ("f", prefix) add_subapp on a frozen application,
+    ("b", prefix) add_subapp with a bad prefix, ("fd", domain) add_domain on a frozen application,
+    ("bd", domain) add_domain with a domain that is refused"""
+    out = []
+    while rng.random() < 0.3 and len(out) < 3:
+        k = rng.choice(["f", "f", "b", "fd", "bd"])
+        arg = {"f": PREFIXES + ["/old", "/api"], "b": BAD_PREFIXES, "fd": DOMAINS, "bd": BAD_DOMAINS}[k]
+        out.append((k, rng.choice(arg)))
+    return out
+
+
+def attempts_of(op):
+    return list(op[3]) if len(op) > 3 else []
 
 
 def renumber(ops, hg):
@@ -163,8 +185,10 @@ def renumber(ops, hg):
             out.append(("R", op[1], op[2], hg.next()))
         elif op[0] == "S":
             out.append(("S", op[1], hg.next(2)))
+        elif op[0] in ("SUB", "DOM"):
+            out.append((op[0], op[1], renumber(op[2], hg), attempts_of(op)))
         else:
-            out.append((op[0], op[1], renumber(op[2], hg)))
+            out.append(tuple(op))
     return out
 
 
@@ -196,16 +220,90 @@ class Built:
         self.codes = []
         self.static_hid = {}     # id(StaticResource) -> hid
         self.keep = []           # keep objects alive (ids are used as keys)
+        self.changed = []        # (operation, code, what changed): a refused operation that left a trace
 
 
-def build_real(ops, built, app=None):
+def _snapshot(apps):
+    return [dump_real(a.router) + ("F" if a.frozen else "") for a in apps]
+
+
+def _refused(built, what, code, apps, names, before):
+    """a refused operation must leave every involved object as it was (E_KEY is finding C14-K1)"""
+    if code in ("ok", "E_KEY"):
+        return
+    after = _snapshot(apps)
+    diff = [n for n, x, y in zip(names, before, after) if x != y]
+    if diff:
+        built.changed.append((what, code, ",".join(diff)))
+
+
+def _valid_domain(domain):
+    from aiohttp.web_urldispatcher import Domain, MaskDomain
+    try:
+        return (MaskDomain if "*" in domain else Domain)(domain)._domain
+    except Exception:
+        return None
+
+
+def _frozen_dummy(built):
+    from aiohttp import web
+    d = web.Application()
+    d.router.add_route("GET", "/zz", _mk_handler(999999))
+    d.freeze()
+    built.keep.append(d)
+    return d
+
+
+def _run_attempts(built, app, sub, attempts):
+    from aiohttp.web_urldispatcher import _requote_path
+    for kind, arg in attempts:
+        target = _frozen_dummy(built) if kind in ("f", "fd") else app
+        apps, names = [target, sub], ["parent", "sub-application"]
+        before = _snapshot(apps)
+        if kind in ("f", "b"):
+            try:
+                q = _requote_path(arg.rstrip("/"))
+            except Exception:
+                q = arg
+            built.tokens.append(f"XA|{kind}|{st(arg)}|{st(q)}")
+            what = "add_subapp-on-frozen" if kind == "f" else "add_subapp-bad-prefix"
+            try:
+                target.add_subapp(arg, sub)
+                code = "ok"
+            except Exception as e:
+                code = _exc_code(e)
+        else:
+            v = _valid_domain(arg)
+            if kind == "fd":
+                if v is None:
+                    continue
+                built.tokens.append("XM|f|" + ("m" if "*" in arg else "e") + "|" + st(v))
+            else:
+                if v is not None:
+                    continue
+                built.tokens.append("XM|b")
+            what = "add_domain-on-frozen" if kind == "fd" else "add_domain-bad-domain"
+            try:
+                target.add_domain(arg, sub)
+                code = "ok"
+            except Exception as e:
+                code = _exc_code(e)
+        built.codes.append(code)
+        _refused(built, what, code, apps, names, before)
+
+
+def build_real(ops, built, app=None, top=False):
     from aiohttp import web
     from aiohttp.web_urldispatcher import ROUTE_RE, _requote_path
     if app is None:
         app = web.Application()
     built.keep.append(app)
     for op in ops:
-        if op[0] == "R":
+        if op[0] == "FREEZE":
+            if top and not app.frozen:
+                app.freeze()
+                built.tokens.append("F")
+        elif op[0] == "R":
             _, method, path, hid = op
             lits = ROUTE_RE.split(path)
             tok = "R|" + st(method) + "|" + st(path) + "|" + str(hid)
@@ -219,11 +317,14 @@ def build_real(ops, built, app=None):
                 except Exception:
                     pass
             built.tokens.append(tok)
+            before = _snapshot([app])
             try:
                 app.router.add_route(method, path, _mk_handler(hid))
-                built.codes.append("ok")
+                code = "ok"
             except Exception as e:
-                built.codes.append(_exc_code(e))
+                code = _exc_code(e)
+            built.codes.append(code)
+            _refused(built, "add_route", code, [app], ["application"], before)
         elif op[0] == "S":
             _, prefix, hid = op
             p = prefix[:-1] if prefix.endswith("/") else prefix
@@ -232,34 +333,51 @@ def build_real(ops, built, app=None):
             except Exception:
                 q = p
             built.tokens.append("S|" + st(prefix) + "|" + st(q) + "|" + str(hid))
+            before = _snapshot([app])
             try:
                 res = app.router.add_static(prefix, HERE_DIR)
                 built.static_hid[id(res)] = hid
                 built.keep.append(res)
-                built.codes.append("ok")
+                code = "ok"
             except Exception as e:
-                built.codes.append(_exc_code(e))
+                code = _exc_code(e)
+            built.codes.append(code)
+            _refused(built, "add_static", code, [app], ["application"], before)
         elif op[0] == "SUB":
-            _, prefix, sub_ops = op
+            prefix, sub_ops = op[1], op[2]
             built.tokens.append("[")
             sub = build_real(sub_ops, built)
+            _run_attempts(built, app, sub, attempts_of(op))
             try:
                 q = _requote_path(prefix.rstrip("/"))
             except Exception:
                 q = prefix
             built.tokens.append("A|" + st(prefix) + "|" + st(q))
+            before = _snapshot([app, sub])
             try:
                 app.add_subapp(prefix, sub)
-                built.codes.append("ok")
+                code = "ok"
             except Exception as e:
-                built.codes.append(_exc_code(e))
+                code = _exc_code(e)
+            built.codes.append(code)
+            _refused(built, "add_subapp", code, [app, sub], ["parent", "sub-application"], before)
         elif op[0] == "DOM":
-            _, domain, sub_ops = op
+            domain, sub_ops = op[1], op[2]
             built.tokens.append("[")
             sub = build_real(sub_ops, built)
-            res = app.add_domain(domain, sub)
-            built.tokens.append("M|" + ("m" if "*" in domain else "e") + "|" + st(res._rule._domain))
-            built.codes.append("ok")
+            _run_attempts(built, app, sub, attempts_of(op))
+            built.tokens.append("M|" + ("m" if "*" in domain else "e") + "|" + st(_valid_domain(domain) or domain))
+            before = _snapshot([app, sub])
+            try:
+                app.add_domain(domain, sub)
+                code = "ok"
+            except Exception as e:
+                code = _exc_code(e)
+            built.codes.append(code)
+            _refused(built, "add_domain", code, [app, sub], ["parent", "sub-application"], before)
+    if top and not app.frozen:
+        app.freeze()          # what AppRunner.setup() does before the first request is served
+        built.tokens.append("F")
     return app
 
 
@@ -432,12 +550,36 @@ def host_variants(rng, domain):
     ])
 
 
+DOT_TAILS = ["/../x", "/%2E%2E/x", "/..", "/%2e%2e", "/f/../../a", "/./f", "/f/..", "/f/../g", "/.%2E/a", "/../", "/...",
+             "/f/./g", "/%2E", "/..%2Ff", "/../../a/b"]
+
+
+def all_prefixes(ops, prefix=""):
+    """(kind, full prefix) of every static resource and sub-application"""
+    for op in ops:
+        if op[0] == "S":
+            yield "S", prefix + op[1].rstrip("/")
+        elif op[0] == "SUB":
+            p = prefix + op[1].rstrip("/")
+            yield "A", p
+            yield from all_prefixes(op[2], p)
+        elif op[0] == "DOM":
+            yield from all_prefixes(op[2], prefix)
+
+
 def gen_requests(rng, ops, n):
     doms = list(all_domains(ops))
+    pfxs = [p for _, p in all_prefixes(ops) if p.startswith("/")]
     temps = [t for t in all_templates(ops) if t.startswith("/")] or ["/"]
     out = []
     for _ in range(n):
-        if rng.random() < 0.8:
+        if pfxs and rng.random() < 0.25:
+            # dot segments / encoded dots around a static or sub-application prefix: does the path still lie under it
+            base = rng.choice(pfxs).replace(" ", "%20")
+            p = base + rng.choice(DOT_TAILS)
+            if rng.random() < 0.3:
+                p = rng.choice(["/a", "/x", base]) + "/.." + p
+        elif rng.random() < 0.8:
             p = mutate_path(rng, instantiate(rng, rng.choice(temps)))
         else:
             p = "/" + "/".join(rng.choice(REQ_SEGS) for _ in range(rng.randint(0, 3))) + rng.choice(["", "", "/"])
@@ -521,6 +663,17 @@ class SpecRes:
         return any(_requote_path(l) != l for l in lits)
 
 
+def _skip_attempt_codes(op, codes):
+    """refused mount attempts have no effect by the documented rule; their result codes are skipped
+    (attempts whose argument turned out (in)valid the other way round were not executed)"""
+    for kind, arg in attempts_of(op):
+        if kind == "fd" and _valid_domain(arg) is None:
+            continue
+        if kind == "bd" and _valid_domain(arg) is not None:
+            continue
+        next(codes)
+
+
 def spec_table(ops, codes, prefix=""):
     """flatten a program (only the ops that the implementation accepted) into spec resources"""
     out = []
@@ -537,11 +690,13 @@ def spec_table(ops, codes, prefix=""):
         elif op[0] == "SUB":
             p = op[1].rstrip("/")
             sub = spec_table(op[2], codes, prefix + p)
+            _skip_attempt_codes(op, codes)
             code = next(codes)
             if code == "ok":
                 out.append(SpecRes("sub", prefix, p, [], len(out), sub=sub))
         elif op[0] == "DOM":
             sub = spec_table(op[2], codes, prefix)
+            _skip_attempt_codes(op, codes)
             code = next(codes)
             if code == "ok":
                 out.append(SpecRes("dom", "", "", [], len(out), sub=sub, domain=op[1]))
@@ -581,7 +736,8 @@ def spec_resolve(table, path, method, host, skip_quoted=None):
                 continue
             d = {k: unquote_safe_spec(v) for k, v in m.groupdict().items()}
         elif r.kind == "static":
-            if not under(r.template, path):
+            # a static resource serves what lies under its prefix and stays there when normalised
+            if not (under(r.template, path) and under(r.template, posixpath.normpath(path))):
                 continue
             d = {"filename": unquote_safe_spec(path[len(r.template) + 1:])}
         elif r.kind == "sub":
@@ -632,10 +788,10 @@ def judge_resolution(ctx, ops, codes, req, impl, path_safe):
     method, raw, host = req
     table = spec_table(ops, iter(codes))
     want = canon_spec(spec_resolve(table, path_safe, method, host))
+    dots = has_dot_segment(path_safe)
+    if dots and table_has_static(table):
+        ctx.hit("oracle:dot-segment-with-static-judged:" + impl[:3])
     if want == impl:
-        return
-    if has_dot_segment(path_safe) and table_has_static(table):
-        ctx.hit("oracle:skipped-dot-segment-with-static")   # traversal normalisation: outside the stated domain
         return
     case = {"kind": "resolve", "ops": ops, "req": [method, raw, host]}
     skipped = []
@@ -651,7 +807,7 @@ def judge_resolution(ctx, ops, codes, req, impl, path_safe):
     elif impl.startswith("ok"):
         sig = "C14/resolve/spurious-match/" + want[:3]
     elif want[:3] != impl[:3]:
-        sig = f"C14/resolve/status-{impl[:3]}-expected-{want[:3]}"
+        sig = f"C14/resolve/status-{impl[:3]}-expected-{want[:3]}" + ("/dot-segment-path" if dots else "")
     else:
         sig = "C14/resolve/allow-set-differs"
     ctx.violation(sig, case, f"{method} {raw} (host={host!r}): implementation {impl}, documented rule {want}")
@@ -681,6 +837,9 @@ def judge_domain(ctx, domain, host):
 
 
 def judge_build(ctx, ops, codes):
+    for what, code, who in getattr(codes, "changed", ()):
+        ctx.violation(f"C14/registration/refused-op-changed-state/{what}", {"kind": "build", "ops": ops},
+                      f"{what} was refused ({code}) but changed the route table of: {who}")
     for c in codes:
         if c == "E_KEY":
             ctx.violation("C14/registration/unindex-matched-subapp-keyerror", {"kind": "build", "ops": ops},
@@ -692,14 +851,17 @@ def judge_build(ctx, ops, codes):
 
 
 # ------------------------------------------------------------------------------ running programs
+class Codes(list):
+    """op result codes of one program + the refused operations that changed something"""
+    changed = ()
+
+
 def run_program(ctx, loop, ops, reqs, want_model=True):
     """returns (model line, impl reply, per-request (impl canonical, path_safe))"""
     built = Built()
     with warnings.catch_warnings():
         warnings.simplefilter("ignore")
-        app = build_real(ops, built)
-        app.freeze()          # what AppRunner.setup() does before the first request is served
-    built.tokens.append("F")
+        app = build_real(ops, built, top=True)
     dump = dump_real(app.router)
     qtoks, results = [], []
     for method, raw, host in reqs:
@@ -715,7 +877,9 @@ def run_program(ctx, loop, ops, reqs, want_model=True):
         qtoks.append("Q|" + st(method) + "|" + st(ps) + "|" + st(norm) + "|" + ("~" if host is None else st(host)))
     line = "tbl " + " ".join(built.tokens + qtoks)
     reply = f"ops={','.join(built.codes)} dump={dump} res={';'.join(r[0] for r in results)}"
-    return line, reply, results, built.codes
+    codes = Codes(built.codes)
+    codes.changed = list(built.changed)
+    return line, reply, results, codes
 
 
 def check_tables(ctx, loop, programs, nreq, label):
@@ -1009,6 +1173,16 @@ def fixed_programs():
         [("DOM", "a.*", [("R", "GET", "/a", 0)]), ("DOM", "A.Example.", [("R", "GET", "/a", 1)]), ("R", "GET", "/a", 2)],
         [("R", "GET", "/a/{tail:.*}", 0), ("R", "GET", "/a/", 1), ("R", "GET", "/a//", 2)],   # key = rstrip("/") of the fixed part
         [("SUB", "/a+b", [("R", "GET", "/{x}", 0)]), ("SUB", "/x.y", [("R", "GET", "/{x}", 1)])],
+        # a refused mount (frozen application / bad prefix / bad domain) must not touch the sub-application
+        [("SUB", "/api", [("R", "GET", "/ping", 0), ("R", "GET", "/items/{id}", 1)], [("f", "/old")])],
+        [("SUB", "/api", [("R", "GET", "/ping", 0), ("S", "/s", 1), ("SUB", "/m", [("R", "GET", "/{x}", 3)])],
+          [("b", "nop"), ("f", "/old/"), ("fd", "a.example"), ("bd", "bad domain"), ("b", "")])],
+        [("DOM", "a.example", [("R", "GET", "/a", 0)], [("f", "/old"), ("fd", "*.b.example")]), ("R", "GET", "/a", 1)],
+        [("R", "GET", "/a", 0), ("FREEZE",), ("R", "POST", "/a", 1), ("R", "GET", "/b", 2), ("S", "/s", 3),
+         ("SUB", "/p", [("R", "GET", "/x", 5)]), ("DOM", "a.example", [("R", "GET", "/a", 6)])],
+        # 404 vs 405 when a path starts with a static prefix but normalises out of it
+        [("S", "/static", 0), ("R", "GET", "/about", 2)],
+        [("SUB", "/p", [("S", "/s", 0), ("R", "POST", "/x", 2)]), ("R", "GET", "/{tail:.*}", 3)],
     ]
     return [renumber(p, HidGen()) for p in progs]
 
@@ -1024,6 +1198,10 @@ def check(ctx):
         for _ in range(1500 if ctx.quick else 5000):
             hg = HidGen()
             ops = gen_ops(rng, hg, rng.choice([0, 1, 1, 2, 3]))
+            if rng.random() < 0.2:
+                # the application starts serving half way: later registrations are refused (or, for a route added
+                # to the last resource, accepted) and must not disturb what is there
+                ops.insert(rng.randint(1, len(ops)), ("FREEZE",))
             programs.append(ops)
             for perm in permutations_of(ops, 2 if ctx.quick else 5):
                 programs.append(renumber(perm, HidGen()))
@@ -1045,7 +1223,7 @@ def _ops_from_json(ops):
     out = []
     for op in ops:
         if op[0] in ("SUB", "DOM"):
-            out.append((op[0], op[1], _ops_from_json(op[2])))
+            out.append((op[0], op[1], _ops_from_json(op[2]), [tuple(a) for a in (op[3] if len(op) > 3 else [])]))
         else:
             out.append(tuple(op))
     return out
